@@ -244,6 +244,12 @@ def setAuth (s : State) (c : Nat) (ident digest : Bytes) (row : Row) : State :=
         ak := some ident, pubchans := row.pubchans, subchans := row.subchans,
         authed := x.authed ++ [(ident, digest, row)] }
 
+/-- `high = SIZES[OP_PUBLISH] * 50` in `authenticate`: the factor is read off the source on every run -/
+def highWaterFactor : Nat := HIGH_WATER_FACTOR
+
+/-- `await asyncio.sleep(60)` in `pause_writing`'s deadline task: read off the source on every run -/
+def gracePeriodMs : Nat := GRACE_MS
+
 /-- does the verdict accept this AUTH?  (`akrow` truthy and `hashsecret(authrand, secret) == digest`) -/
 def authOk (cfg : Cfg) (x : Conn) (digest : Bytes) : Lookup → Option Row
   | .row row => if cfg.H (x.nonce ++ row.secret) = digest then some row else none
@@ -254,7 +260,7 @@ def authOk (cfg : Cfg) (x : Conn) (digest : Bytes) : Lookup → Option Row
 def authenticate (cfg : Cfg) (s : State) (c : Nat) (x : Conn) (ident digest : Bytes) (r : Lookup) :
     State × Bool :=
   match authOk cfg x digest r with
-  | some row => (logAct (setAuth s c ident digest row) c (.setLimits (limit OP_PUBLISH * 50)), true)
+  | some row => (logAct (setAuth s c ident digest row) c (.setLimits (limit OP_PUBLISH * highWaterFactor)), true)
   | none => (errorClose s c, false)
 
 def pauseReading (s : State) (c : Nat) : State :=
@@ -350,7 +356,6 @@ def setBuf (s : State) (c : Nat) (b : Bytes) : State := s.upd c fun x => { x wit
 def crashClose (s : State) (c : Nat) : State :=
   (logAct s c .crashed).upd c Conn.beginClose
 
-def gracePeriodMs : Nat := 60000
 
 /-- `connection_made`: a fresh record whose first action is the OP_INFO challenge -/
 def addConn (cfg : Cfg) (s : State) (c : Nat) (nonce : Bytes) : State :=
